@@ -120,9 +120,36 @@ class Multiline:
     -------
     self
     """
+    # check all tags before merging any of them, so that a line which cannot
+    # be merged leaves the header unchanged
+    for of in gfa_line.tagnames:
+      self._check_mergeable(of, gfa_line.get(of), gfa_line.get_datatype(of))
     for of in gfa_line.tagnames:
       self.add(of, gfa_line.get(of), gfa_line.get_datatype(of))
     return self
+
+  def _check_mergeable(self, tagname, value, datatype):
+    prev = self.get(tagname)
+    if prev is None:
+      return
+    if not isinstance(prev, gfapy.FieldArray):
+      if tagname in self.SINGLE_DEFINITION_TAGS:
+        if self.field_to_s(tagname) != \
+            gfapy.Field._to_gfa_field(value, fieldname=tagname):
+          raise gfapy.InconsistencyError(
+            "Inconsistent values for header tag {} found\n".format(tagname)+
+            "Previous definition: {}\n".format(prev)+
+            "Current definition: {}".format(value))
+        return
+      prev_datatype = self.get_datatype(tagname)
+    else:
+      prev_datatype = prev.datatype
+    if self.vlevel > 1 and datatype is not None and datatype != prev_datatype:
+      raise gfapy.InconsistencyError(
+        "Datadatatype mismatch error for field {}:\n".format(tagname)+
+        "value: {}\n".format(value)+
+        "existing datatype: {};\n".format(prev_datatype)+
+        "new datatype: {}".format(datatype))
 
   def _tags(self):
     """
